@@ -53,15 +53,23 @@ def convert_to_bool_expression(qlassf: QlassF, form: str):
 
 
 def convert_to_dimacs(expr):
-    clauses = to_cnf(expr, simplify=True).args
-    if len(clauses) == 1 and isinstance(clauses[0], sympy.Symbol):
-        clauses = [clauses]
+    cnf = to_cnf(expr, simplify=True)
+    if cnf == sympy.true:
+        clauses = []
+    elif isinstance(cnf, sympy.And):
+        clauses = list(cnf.args)
+    else:
+        # a single clause (or literal, or False) is not a conjunction of its arguments
+        clauses = [cnf]
 
-    var_dict = {symbol: i + 1 for i, symbol in enumerate(expr.free_symbols)}
+    symbols = sorted(cnf.free_symbols, key=lambda symbol: symbol.name)
+    var_dict = {symbol: i + 1 for i, symbol in enumerate(symbols)}
     dimacs_clauses = []
 
     for clause in clauses:
-        if isinstance(clause, sympy.Or):
+        if clause == sympy.false:
+            clause_literals = []
+        elif isinstance(clause, sympy.Or):
             clause_literals = clause.args
         else:
             clause_literals = [clause]
